@@ -1,11 +1,11 @@
 SPECIFICATION Spec
 CONSTANTS
   B = 4
-  Conns = {0, 1}
+  Conns = {0, 1, 2}
   Versions = {20}
   ObjUuids = {101, 102}
   SvcUuids = {201}
-  Events = {0, 1}
+  Events = {0}
   Fns = {0}
   CSerials = {0}
   Payloads = {1}
@@ -13,15 +13,15 @@ CONSTANTS
   Caps <- CapsOne
   MaxCookie = 3
   InqBound = 1
-  Kinds = {"SubscribeEvent", "UnsubscribeEvent", "EmitEvent", "SubscribeService", "UnsubscribeService", "SubscribeAllEvents", "UnsubscribeAllEvents", "DestroyService"}
-  Faults = {"ends", "dropped"}
+  Kinds = {"CallFunction", "CallFunctionReply"}
+  Faults = {}
   WrongKinds = {}
-  MsgBudget = 3
-  InitSerial = 0
+  MsgBudget = 8
+  InitSerial = 3
   ScriptSel = "svc"
   V0 = 20
   V1 = 20
-
+SerialWrap <- SW3
 VIEW view
 INVARIANTS ObserverOk NoPanicSite BoundaryConsistent FlagsOk StoppedClean
 CHECK_DEADLOCK FALSE
